@@ -35,7 +35,7 @@ def p_c11(run):
 # ---------------------------------------------------------------- C12
 def p_c12(run):
     ck = _imports()
-    ck.kernel_tie(run, ("native", "w32", "neutral", "neutral32"))
+    ck.kernel_tie(run, ("native", "w32", "neutral", "neutral32"), ck.ALL_PARTS)
     scripts = G.gen_mix(run.rng, run.tier)
     cfgs = list(C.CONFIGS)
     builds = [(c, "gcc", "-O2") for c in cfgs]
